@@ -13,6 +13,8 @@ import rv
 from rv import ToolError, log
 
 AB = lambda n: {"k": "ab", "n": n}
+# the list protocol the model describes: as found (False) or repaired (True); follows the code at /repo HEAD
+FIXED_LIST = os.environ.get("RV_FIXED_LIST", "1") == "1"   # repaired by fix: d88e149 + a6d73ef
 
 
 def conc_cfg(cap=200, kind="opt", minseg=8, retries=2, backend="vec", unify=False, own_clones=False):
@@ -132,7 +134,7 @@ def write_mcsync(wd, name, cfg, setup_text, progs, emit=False, liveness=False, i
             f.write("SPECIFICATION HSpec\nVIEW HView\nCONSTANTS\n")
         else:
             f.write("SPECIFICATION %s\nVIEW View\nCONSTANTS\n" % ("MCFairSpec" if liveness else "MCSpec"))
-        f.write("  Threads <- mcThreads\n  Prog <- mcProg\n  Setup <- mcSetup\n")
+        f.write("  Threads <- mcThreads\n  Prog <- mcProg\n  Setup <- mcSetup\n  FixedList = %s\n" % ("TRUE" if FIXED_LIST else "FALSE"))
         f.write("  Cap = %d\n  DataOff = %d\n  Kind = \"%s\"\n  MinSeg0 = %d\n  MaxRetries = %d\n" % (
             cfg["cap"], data_off(cfg), cfg["kind"], cfg["minseg"], cfg.get("retries", 5)))
         if not hb and not crash:
@@ -200,7 +202,7 @@ def write_tracesync(wd, name, cfg, setup_text, progs):
         f.write("====\n")
     with open(os.path.join(wd, name + ".cfg"), "w") as f:
         f.write("SPECIFICATION TSpec\nCONSTANTS\n")
-        f.write("  Threads <- mcThreads\n  Prog <- mcProg\n  Setup <- mcSetup\n")
+        f.write("  Threads <- mcThreads\n  Prog <- mcProg\n  Setup <- mcSetup\n  FixedList = %s\n" % ("TRUE" if FIXED_LIST else "FALSE"))
         f.write("  Cap = %d\n  DataOff = %d\n  Kind = \"%s\"\n  MinSeg0 = %d\n  MaxRetries = %d\n" % (
             cfg["cap"], data_off(cfg), cfg["kind"], cfg["minseg"], cfg.get("retries", 5)))
         f.write("POSTCONDITION Post\nCHECK_DEADLOCK FALSE\n")
